@@ -1,6 +1,9 @@
 /-
   C17 — the multi-centre routine is the coefficient-weighted sum of the closed forms over all
-  s and p functions (model `Coulomb.coulombPotential`, hand-written, tied by correspondence).
+  s and p functions, for the hand-written reference model `Coulomb.coulombPotential`; the
+  GENERATED `coulomb_potential` is proved equal to it in `MultiGen.lean`
+  (`potential_gen_eq_model`), which transports `multi_centre_is_sum` to the generated code
+  (`multi_centre_is_sum_gen`).
 -/
 import GridVerif.Props.C17.Basic
 
